@@ -180,9 +180,17 @@ func newWorld(cfg Config) (*Chain, error) {
 		c.bind("m_"+m, authtypes.NewModuleAddress(m).String())
 	}
 
+	// validators are named in the byte order of their operator addresses: the order in which x/staking iterates a
+	// delegator's delegations (the first qualifying validator wins in CheckNodeShare)
+	var owners []*Account
 	for i := 0; i < cfg.Validators; i++ {
-		owner := &Account{Name: fmt.Sprintf("vo%d", i+1), Priv: secp256k1.GenPrivKeyFromSecret([]byte(fmt.Sprintf("valowner-%d-%d", cfg.WorldSeed, i)))}
-		owner.Addr = sdk.AccAddress(owner.Priv.PubKey().Address())
+		o := &Account{Priv: secp256k1.GenPrivKeyFromSecret([]byte(fmt.Sprintf("valowner-%d-%d", cfg.WorldSeed, i)))}
+		o.Addr = sdk.AccAddress(o.Priv.PubKey().Address())
+		owners = append(owners, o)
+	}
+	sort.Slice(owners, func(i, j int) bool { return string(owners[i].Addr) < string(owners[j].Addr) })
+	for i, owner := range owners {
+		owner.Name = fmt.Sprintf("vo%d", i+1)
 		c.bind(owner.Name, owner.Addr.String())
 		valAddr := sdk.ValAddress(owner.Addr)
 		vv := &Validator{Name: fmt.Sprintf("v%d", i+1), ValAddr: valAddr, Owner: owner}
